@@ -129,6 +129,12 @@ CLAIMS = {
         "note": "Exhaustive on the finite universe (54+ expressions, ~160k triples), not on all expressions; typecodes modelled by class names, repr of repr-ordered terminals by fixed distinct strings, hash() by a structural hash. " + TB,
         "technique": "abstract interpretation of the comparator and the constructors' sorting branch on a finite universe of abstract expression objects; exhaustive order-axiom check on the resulting sign matrix",
     },
+    "C12": {
+        "level": "other",
+        "text": "Form.signature() - Form.__init__ with its integral sorting, domain and terminal numbering, every _ufl_signature_data_ method, compute_form_signature, canonicalize_metadata, and the operand ordering of the Sum/Product constructors (sorted_expr/cmp_expr) - is lifted on a family of forms whose meshes, function spaces, coefficients, constants, arguments, geometric quantities, literals, indices, labels, integrals and forms are instances of the repository's classes built by lifting their own constructors. Every incidental quantity is an explicit parameter of the lifted world: all counters (order-preserving renumberings across the 9->10 and 99->100 digit boundaries), the iteration order of every set built by the analysed code (insertion order, reverse, three element-keyed orders) and the salt of hash(str). The signature of each form must be identical in all worlds; a difference is reported with the first differing pre-hash data.",
+        "note": "Finite family (counted terminals in commutative nodes, several non-integration meshes, free/fixed indices and a Zero with free indices, variables, several integrals with ids/metadata, extra-domain maps, arguments with parts). Traversal drivers modelled (C19); finite elements / cells are abstract objects identified by repr; hashlib is modelled by itself. " + TB,
+        "technique": "differential abstract interpretation of the signature pipeline over instances of the repository classes, with counters, set iteration order and string-hash salt as parameters of the abstract world",
+    },
 }
 
 NOT_APPLICABLE = {
